@@ -26,7 +26,7 @@ ENVS = [
 
 
 def plan(tier):
-    return {"n": 64 if tier == "quick" else 800, "floor": 16 if tier == "quick" else 200}
+    return {"n": 64 if tier == "quick" else 256, "floor": 16 if tier == "quick" else 64}
 
 
 def rule(tier):
